@@ -49,6 +49,7 @@ func main() {
 		}
 		debug.SetGCPercent(400)
 		r := mc.NewRun(id, tier)
+		mc.Current = r
 		if pf := os.Getenv("VERIF_PPROF"); pf != "" {
 			f, _ := os.Create(pf)
 			_ = pprof.StartCPUProfile(f)
